@@ -624,6 +624,14 @@ and run_case_model (oc : out_channel) (c : case) : unit =
           let ((c, h1), ok) = edge_loop cb big_fuel d cb0 !h (nat_of_int (ios st.(2))) O in
           h := h1;
           if ok then "r loop" ^ tail !h c true (sc <> []) ^ xtail xs xlog else "fuel"
+      | "srch" when Array.exists (fun t -> t = "then") st ->
+          (* the same search run, the graph changed (or the search re-targeted), and run again *)
+          let i = (let rec find k = if st.(k) = "then" then k else find (k + 1) in find 0) in
+          let st1 = Array.sub st 0 i and op = Array.sub st (i + 1) (Array.length st - i - 1) in
+          let r1 = exec st1 in
+          let st2 = if op.(0) = "retarget" then (let c = Array.copy st1 in c.(5) <- op.(1); c) else (ignore (exec op); st1) in
+          let r2 = exec st2 in
+          r1 ^ " THEN " ^ r2
       | "srch" ->
           let algo = st.(1) and what = st.(2) and root = nat_of_int (ios st.(3)) in
           let tr = (st.(4) = "1") in
